@@ -286,4 +286,16 @@ theorem rowLabels_reached {α : Type} {act : α → Int → Option α} {start : 
     | none => simp at h2
     | some w => exact ⟨w, by simpa using h2⟩
 
+theorem labelledTable_spec {α : Type} [BEq α] {act : α → Int → Option α} {start : α} {x : Tab} {n : Nat}
+    (h : labelledTable act start x n = true) :
+    ∃ lab, rowLabels act start x n = some lab ∧ labelledBy act start x n lab = true := by
+  unfold labelledTable at h
+  cases hr : rowLabels act start x n with
+  | none => simp [hr] at h
+  | some lab => exact ⟨lab, rfl, by simpa [hr] using h⟩
+
+theorem fixesAll_iff (t : Tab) (n : Nat) (w : List Int) :
+    fixesAll t n w = true ↔ ∀ c, c < t.size → traceWord t n c w = some c := by
+  simp [fixesAll, fixesRow, rowsOf]
+
 end DSymVerif.StabP
